@@ -1,12 +1,57 @@
 /-
   C06 — JSONB documents decode to an equal JSON document.
-  Property theorems only; helper lemmas are in Proofs/Jsonb.lean.
+  Property theorems only; helper lemmas are in Proofs/Jsonb.lean and Proofs/JsonbRound.lean.
 -/
-import PgVerif.Model.JsonbView
+import PgVerif.Proofs.JsonbRound
 namespace PgVerif.Props.C06
-open PgVerif PgVerif.Model
+open PgVerif PgVerif.Model PgVerif.Proofs
 
-/-- placeholder while the pipeline is brought up -/
-theorem C06_empty_total : totalLen [] = 0 := rfl
+/-- The arithmetic core, for every container size and ANY placement of HAS_OFF flags (PostgreSQL's
+stride of 32 over the combined key+value entry array is one instance): for children of lengths `lens`
+and arbitrary types, encoded as JEntries that carry the child's length — or, where flagged, the end
+offset of the child —, `entryOffLen` returns for every index the child's start (the sum of the
+lengths before it) and its length.  No bound on the number of entries; the only size hypothesis is
+PostgreSQL's own (the data area is below 2^28 bytes, so that every value fits the 28-bit field). -/
+theorem C06_offsets (lens tys : List Nat) (flags : Nat → Bool) (idx base : Nat) (hidx : idx < lens.length)
+    (hsmall : pre lens lens.length < 0x10000000) (hty : ∀ i, tys.getD i 0 < 8) :
+    entryOffLen (encE lens tys flags) idx base = .ok (base + pre lens idx, (lens.getD idx 0 : Int)) := by
+  rw [entryOffLen_ok _ _ _ (by rw [encE_length]; exact hidx)]
+  rw [entryOffLenPure_encE lens tys flags hsmall hty idx base hidx]
+
+/-- non-vacuity: 40 children of length 3 with HAS_OFF on every 32nd entry — entry 33 starts at 99 -/
+example : entryOffLen (encE (List.replicate 40 3) [] (fun i => i % 32 == 0)) 33 0 = .ok (99, 3) := by
+  rfl
+
+/-- The full statement of C06 for the parser as it is: for every well-formed document (object keys
+sorted and distinct, numerics well-formed) whose containers stay within the implementation's limit of
+10 000 elements / pairs and whose encoding is below 2^28 bytes, parsing PostgreSQL's binary encoding
+yields the document's view (same nesting, keys, values, order; numbers by exact value).
+This is a definition (the goal), not a theorem; `C06_roundtrip_partial` proves it for the documents
+without objects. -/
+def C06_roundtrip_statement : Prop :=
+  ∀ j : Spec.Json, j.wf = true → countsOK j = true → (Spec.encJsonb j).length < 0x10000000 →
+    (parseJSONB (Spec.encJsonb j)).map JV.toView = .ok j.view
+
+/-- Round trip, proved for every document built from arrays (nested to any depth, any size up to the
+implementation's 10 000-element limit — hence crossing the 32-entry offset stride any number of times —
+including empty arrays at any depth), strings of any length, booleans, null and well-formed numerics
+(any amount of alignment padding), as a container root or a scalar root: `ParseJSONB` applied to
+PostgreSQL's encoding returns exactly the document (numbers by their exact value, see C05).
+What is missing for the full statement: objects (`arraysOnly` excludes them).  The ingredients that are
+specific to objects are proved separately — `C06_offsets` covers the shared key/value entry array with
+offsets counted over the whole array — but the induction step for `parseJSONBObject` (keys, then values
+at index count+i, then the Go map built from pairwise distinct keys) is not done; objects are covered by
+the correspondence runs only. -/
+theorem C06_roundtrip_partial (j : Spec.Json) (hs : arraysOnly j = true)
+    (hsize : (Spec.encJsonb j).length < 0x10000000) :
+    (parseJSONB (Spec.encJsonb j)).map JV.toView = .ok j.view :=
+  roundtrip_arraysOnly j hs hsize
+
+/-- non-vacuity: `["hi", -0.5, [null, true, []], []]` satisfies the hypotheses -/
+example : arraysOnly (.arr [.str [0x68, 0x69], .num (.fin true (-1) 1 [5000]) false,
+      .arr [.null, .bool true, .arr []], .arr []]) = true ∧
+    (Spec.encJsonb (.arr [.str [0x68, 0x69], .num (.fin true (-1) 1 [5000]) false,
+      .arr [.null, .bool true, .arr []], .arr []])).length < 0x10000000 := by
+  decide
 
 end PgVerif.Props.C06
